@@ -123,5 +123,11 @@ func TestC03Sweep(t *testing.T) {
 			}
 		}
 	}
+	// very long walks that stay within a narrow band (n/Z in the millions: the series has millions of terms)
+	for _, n := range []int{4000000, 13000001} {
+		for _, z := range []int{1, 2, 3} {
+			cases = append(cases, statCase{Test: "cusum", Flag: z%2 == 1, Seq: gen.Seq{Family: "walk", N: n, Seed: uint64(z), A: z}})
+		}
+	}
 	enumerate(t, "C03", cases, checkC03)
 }
